@@ -187,3 +187,16 @@ META["C15"] = M(
          "Arnoldi relation, orthonormality of the first min(m+1, d) columns to c*eps*kappa/rho_m (rho_m the reference "
          "minimal residual, judged while >= 1e-8), zero padding beyond n, equality with the n-step run, and arnoldi_eigs with "
          ">= n steps against the reference spectrum (multiset match); distinct = configuration tuple")
+
+META["C16"] = M(
+    shards={"quick": 16, "thorough": 64}, budget={"quick": 50, "thorough": 800},
+    floors={"quick": {"evals": 4000, "distinct": 600}, "thorough": {"evals": 80000, "distinct": 8000}},
+    required=["U-orthonormal-columns", "V-orthonormal-columns", "Sigma-nonnegative-diagonal", "U-Sigma-VH-equals-A",
+              "k-largest-singular-values", "best-rank-k-approximation", "pinv-is-min-norm-least-squares", "pinv-auto-large"],
+    rule="operators of shape m x n (m<n, m=n, m>n up to 12, real/complex/single) with well-separated singular values (cond 4) as "
+         "Dense / generic / Product with a unitary factor / Identity / Diagonal / ScalarMul / Permutation; svd(A, k) for all k "
+         "with algorithm omitted/Auto/DenseSVD/Lanczos judged for orthonormal U, V, non-negative diagonal Sigma, reconstruction "
+         "(k = min(m,n)) and, for Lanczos with k < min(m,n), the k largest singular values and the best rank-k error; "
+         "pinv(A, alg) @ b (alg omitted/Auto/LSTSQ/CG; consistent and inconsistent, 1-D and multi-column b) compared with the "
+         "minimum-norm least-squares solution of the reference in solution, norm and residual; plus the >10^6-entry side of "
+         "pinv's Auto switch; distinct = configuration tuple")
